@@ -3,6 +3,12 @@ pub use crate::verif_rt::{
     any_bool, any_f64, any_i64, any_u16, any_u32, any_u64, any_u8, any_usize, assume,
 };
 
+/// The map type the crate's internals use in this build (E6 shim or std).
+#[cfg(prometheus_verif_map)]
+pub use crate::verif_map::HashMap as Map;
+#[cfg(not(prometheus_verif_map))]
+pub use std::collections::HashMap as Map;
+
 /// `std::hash::RandomState::new` → fixed keys (getrandom is a foreign call).
 pub fn fixed_random_state() -> std::hash::RandomState {
     unsafe { std::mem::transmute::<(u64, u64), std::hash::RandomState>((0, 0)) }
@@ -17,7 +23,7 @@ pub fn cheap_desc(
     fq_name: String,
     help: String,
     variable_labels: Vec<String>,
-    const_labels: std::collections::HashMap<String, String>,
+    const_labels: Map<String, String>,
 ) -> crate::errors::Result<crate::desc::Desc> {
     std::mem::forget(const_labels);
     Ok(crate::desc::Desc {
@@ -63,4 +69,116 @@ pub fn pl_unlock_exclusive_slow(_l: &parking_lot::RawRwLock, _f: bool) {
 }
 pub fn pl_unlock_shared_slow(_l: &parking_lot::RawRwLock) {
     assume(false);
+}
+
+const FNV_BASIS: u64 = 0xcbf29ce484222325;
+/// E4: `<FnvHasher as Hasher>::write` -> injective packing of the byte stream into the 64-bit
+/// state (`state = state << 8 | byte`; the untouched FNV offset basis stands for the empty
+/// stream). Bytes are required to be non-zero, so two hashes are equal exactly when the streams
+/// are equal, and the solver decides whether the *serialisation* of label tuples / descriptor
+/// parts is injective. Streams longer than 8 bytes or containing NUL are outside the bound and
+/// fail the harness loudly.
+pub fn fnv_write_injective(h: &mut fnv::FnvHasher, bytes: &[u8]) {
+    let s: &mut u64 = unsafe { &mut *(h as *mut fnv::FnvHasher as *mut u64) };
+    let mut i = 0;
+    while i < bytes.len() {
+        if *s == FNV_BASIS {
+            *s = 0;
+        }
+        assert!(*s < (1u64 << 56), "E4 bound: hashed stream longer than 8 bytes");
+        assert!(bytes[i] != 0, "E4 bound: NUL byte in hashed stream");
+        *s = (*s << 8) | bytes[i] as u64;
+        i += 1;
+    }
+}
+
+/// A symbolic `&str` of length 0..=2 viewed into a symbolic 2-byte buffer: ASCII bytes, or one
+/// valid two-byte UTF-8 sequence.
+pub fn sym_str2(buf: &mut [u8; 2]) -> &str {
+    buf[0] = any_u8();
+    buf[1] = any_u8();
+    let n = any_usize();
+    assume(n <= 2);
+    let ascii = buf[0] < 128 && buf[1] < 128 && buf[0] != 0 && buf[1] != 0;
+    let two = n == 2 && buf[0] >= 0xC2 && buf[0] <= 0xDF && buf[1] >= 0x80 && buf[1] <= 0xBF;
+    assume(ascii || two);
+    unsafe { std::str::from_utf8_unchecked(&buf[..n]) }
+}
+pub fn str_eq2(a: &str, b: &str) -> bool {
+    let (a, b) = (a.as_bytes(), b.as_bytes());
+    a.len() == b.len() && (a.len() < 1 || a[0] == b[0]) && (a.len() < 2 || a[1] == b[1])
+}
+/// Descriptor stub that keeps variable labels and (sorted) const label pairs, no validation/hashing.
+pub fn cheap_desc_keep_labels(
+    fq_name: String,
+    help: String,
+    variable_labels: Vec<String>,
+    const_labels: Map<String, String>,
+) -> crate::errors::Result<crate::desc::Desc> {
+    let mut pairs = Vec::new();
+    for (k, v) in const_labels {
+        let mut lp = crate::proto::LabelPair::default();
+        lp.set_name(k);
+        lp.set_value(v);
+        pairs.push(lp);
+    }
+    Ok(crate::desc::Desc { fq_name, help, const_label_pairs: pairs, variable_labels, id: 0, dim_hash: 0 })
+}
+
+/// A `String` with a concrete 2-byte heap buffer and a symbolic length 0..=2 (ASCII, non-NUL).
+pub fn sym_string2() -> String {
+    let (b0, b1) = (any_u8(), any_u8());
+    assume(b0 != 0 && b0 < 128 && b1 != 0 && b1 < 128);
+    let n = any_usize();
+    assume(n <= 2);
+    let mut v = vec![b0, b1];
+    unsafe {
+        v.set_len(n);
+        String::from_utf8_unchecked(v)
+    }
+}
+
+static mut NEXT_ID: u64 = 1;
+/// `Desc::new` stub for registry harnesses: keeps labels, assigns a fresh id per descriptor and
+/// a dimension hash derived from nothing (0): registration logic sees distinct descriptors that
+/// agree in dimension.
+pub fn cheap_desc_fresh_ids(
+    fq_name: String,
+    help: String,
+    variable_labels: Vec<String>,
+    const_labels: Map<String, String>,
+) -> crate::errors::Result<crate::desc::Desc> {
+    let mut d = cheap_desc_keep_labels(fq_name, help, variable_labels, const_labels)?;
+    d.const_label_pairs.sort();
+    unsafe {
+        d.id = NEXT_ID;
+        NEXT_ID = NEXT_ID << 1;
+    }
+    Ok(d)
+}
+
+/// `<[T]>::sort` -> plain stable insertion sort (std's driftsort/smallsort machinery is trusted
+/// to sort; its generic small-sort networks cost thousands of memcmp unwindings under CBMC).
+pub fn sort_stub<T: Ord>(v: &mut [T]) {
+    let mut i = 1;
+    while i < v.len() {
+        let mut j = i;
+        while j > 0 && v[j] < v[j - 1] {
+            v.swap(j - 1, j);
+            j -= 1;
+        }
+        i += 1;
+    }
+}
+/// `<[T]>::sort_by` -> plain stable insertion sort.
+pub fn sort_by_stub<T, F: FnMut(&T, &T) -> std::cmp::Ordering>(v: &mut [T], mut f: F) {
+    let mut i = 1;
+    while i < v.len() {
+        let mut j = i;
+        while j > 0 && f(&v[j], &v[j - 1]) == std::cmp::Ordering::Less {
+            v.swap(j - 1, j);
+            j -= 1;
+        }
+        i += 1;
+    }
 }
